@@ -401,13 +401,19 @@ class ValueWrapper(Term):
             return cls.get_formatted_value(value.isoformat(), ctx)
         if isinstance(value, str):
             value = value.replace(quote_char, quote_char * 2)
+            if ctx.dialect == Dialects.MYSQL:
+                # MySQL string literals treat the backslash as an escape character
+                value = value.replace("\\", "\\\\")
             return format_quotes(value, quote_char)
         if isinstance(value, bool):
             return str(value).lower()
         if isinstance(value, uuid.UUID):
             return cls.get_formatted_value(str(value), ctx)
         if isinstance(value, (dict, list)):
-            return format_quotes(json.dumps(value).replace(quote_char, quote_char * 2), quote_char)
+            value = json.dumps(value).replace(quote_char, quote_char * 2)
+            if ctx.dialect == Dialects.MYSQL:
+                value = value.replace("\\", "\\\\")
+            return format_quotes(value, quote_char)
         if value is None:
             return "null"
         return str(value)
